@@ -104,6 +104,10 @@ def generate(seed, tier, index):
                 pairs.append([e["name"], rng.choice(["On", "Off"]), None])
             else:
                 n = rng.choice([0, 1, 2, 3, 17, 100, 300])
+                if len(chosen) == 1 and not G.SPICY_NAMES[0] and rng.random() < 0.4:
+                    # as large as one upload may be below the server's 2048-character limit: the update that comes back carries
+                    # every member of the property, i.e. it is a good deal longer than what was sent
+                    n = rng.choice([700, 1000, 1200])
                 pairs.append([e["name"], {"blob_hex": bytes(rng.randrange(256) for _ in range(n)).hex(),
                                           "format": rng.choice([".fits", ".jpg", "", ".x\xe9"])}, None])
         step = {"op": "write", "c": rng.randrange(nclients), "dev": d, "vec": v["name"], "els": pairs}
